@@ -61,6 +61,6 @@ Ltac mat_unfold :=
 (* split an equality of explicit lists / lists of lists into entry equalities *)
 Ltac list_eq :=
   repeat match goal with
-  | |- @eq (list _) (_ :: _) (_ :: _) => apply (f_equal2 (@cons _))
-  | |- @eq (list _) [] [] => reflexivity
+  | |- (_ :: _) = (_ :: _) => apply (f_equal2 (@cons _))
+  | |- [] = [] => reflexivity
   end.
